@@ -137,7 +137,8 @@ def _case_a(draw):
     for d, name in enumerate(TPLS):
         if draw(st.booleans()):
             templates[name] = draw(_segs(d + 1, 3))
-    return {"main": draw(_segs(0, 8)), "templates": templates, "ctx": draw(_ctx()), "strict": draw(st.sampled_from([False, False, True])), "plant": None}
+    return {"main": draw(_segs(0, 8)), "templates": templates, "ctx": draw(_ctx()), "strict": draw(st.sampled_from([False, False, True])), "plant": None,
+            "pre": draw(st.sampled_from([False, False, True]))}
 
 
 def _plant_case(channel, construct, pre, post, extra_ctx):
@@ -385,6 +386,22 @@ def judge(case):
     textual_missing = sorted(v for v in main_free if v not in ctx)                  # must be reported in strict mode
     may_missing = sorted(v for v in free if v not in ctx)                           # acceptable reasons for a strict error
     scoped_unbound = sorted(v for v in scoped if v not in ctx)
+    if case.get("pre"):
+        # the same template rendered first on the same Ribosome under other contexts - including renders that fail half-way
+        # (strict error inside an included template, a raising filter): a later render must not depend on them
+        mf, ms = set(), set()
+        _textual_plain_vars(case["main"], {}, ctx, ms, mf, set())
+        only_main = {k: v for k, v in ctx.items() if k in mf or not isinstance(v, str)}
+        as_ints = {k: (5 if isinstance(v, str) else v) for k, v in ctx.items()}
+        other = {k: ("zz-" + v if isinstance(v, str) else v) for k, v in ctx.items()}
+        saved = rib.strict
+        for strict_flag, pre_ctx in ((True, only_main), (True, {}), (False, as_ints), (False, other)):
+            rib.strict = strict_flag
+            try:
+                rib.translate(mRNA(sequence=text, name="main"), **pre_ctx)
+            except Exception:
+                pass
+        rib.strict = saved
     try:
         protein = rib.translate(mRNA(sequence=text, name="main"), **ctx)
     except ValueError as e:
